@@ -32,7 +32,7 @@ func fieldDeps(v ssa.Value) map[string]bool {
 }
 
 func ruleContext(c *Ctx) *RuleResult {
-	r := newResult("R-CONTEXT", "context bookkeeping has the dependencies the budget rules need (presence of data flow, not expression shape): (a) in PushContext the value stored to hardLimits depends on the old hardLimits, on usedResources and on the requested HardLimits; the value stored to softLimits depends on the new hardLimits and on the requested SoftLimits; when time is tracked the parent's elapsed time is refreshed before that, under no other condition than trackTime; (b) PopContext charges the child's used Cpu and Memory to the parent (RequireCPU/RequireMem on m.parent with the child's usedResources) before restoring the parent; (c) the status field is written only by its owners: Live in PushContext, Done on the returned copy in PopContext, Killed in TerminateContext, and setStatus, which only CallContext calls, on the err != nil branch, after everything that can run Lua code (the to-be-closed handlers and finalisers) — otherwise those would run with limits switched off; (d) Due() depends on stopLevel, softLimits and usedResources")
+	r := newResult("R-CONTEXT", "context bookkeeping has the dependencies the budget rules need (presence of data flow, not expression shape): (a) in PushContext the value stored to hardLimits depends on the old hardLimits, on usedResources and on the requested HardLimits; the value stored to softLimits depends on the new hardLimits and on the requested SoftLimits; when time is tracked the parent's elapsed time is refreshed before that, under no other condition than trackTime; (b) PopContext charges the child's used Cpu and Memory to the parent (RequireCPU/RequireMem on m.parent with the child's usedResources) before restoring the parent; (c) the status field is written only by its owners: Live in PushContext, Done on the returned copy in PopContext, Killed in TerminateContext (or its helper terminate), and setStatus, which only CallContext calls, on the err != nil branch, after everything that can run Lua code (the to-be-closed handlers and finalisers) — otherwise those would run with limits switched off; (d) Due() depends on stopLevel, softLimits and usedResources; (e) running out of CPU or memory is not an error a nested context can swallow: the termination raised by requireCPU and by requireMem depends on a field PushContext derives from the requested limits (whose memory ran out: the context's own, or what its parent had left), and CallContext's recover handler hands the recovered value to a function that can terminate the restored context and whose decision depends on it — a pcall's context has no memory of its own, so without this `pcall(string.rep, 'x', 1e9)` turns the kill into a catchable error and the program carries on")
 	p := c.P
 	if p.Config.Tags == "noquotas" {
 		r.note("noquotas build: no budgets; rule not applicable")
@@ -185,7 +185,7 @@ func ruleContext(c *Ctx) *RuleResult {
 	owners := map[string]map[string]bool{
 		"StatusLive":   {"(*runtime.runtimeContextManager).PushContext": true},
 		"StatusDone":   {"(*runtime.runtimeContextManager).PopContext": true},
-		"StatusKilled": {"(*runtime.runtimeContextManager).TerminateContext": true},
+		"StatusKilled": {"(*runtime.runtimeContextManager).TerminateContext": true, "(*runtime.runtimeContextManager).terminate": true},
 		"param":        {"(*runtime.runtimeContextManager).setStatus": true},
 	}
 	nst := 0
@@ -305,6 +305,146 @@ func ruleContext(c *Ctx) *RuleResult {
 			}
 		})
 	}
+	// ---- (e)
+	reqFns := map[string]*ssa.Function{
+		"requireCPU": p.Func("runtime", "(*runtimeContextManager).requireCPU"),
+		"requireMem": p.Func("runtime", "(*runtimeContextManager).requireMem"),
+	}
+	if reqFns["requireCPU"] == nil || reqFns["requireMem"] == nil {
+		r.broken("anchor unresolved: (*runtimeContextManager).requireCPU / requireMem")
+	} else {
+		isTermErrT := func(t fmt.Stringer) bool {
+			return strings.HasSuffix(t.String(), "runtime.ContextTerminationError")
+		}
+		// fields of the context manager set in PushContext from the request
+		fromRequest := map[string]bool{}
+		forEachInstr(push, func(ins ssa.Instruction) {
+			st, ok := ins.(*ssa.Store)
+			if !ok {
+				return
+			}
+			fa, ok := st.Addr.(*ssa.FieldAddr)
+			if !ok {
+				return
+			}
+			_, tn, fn := fieldOfAddr(fa)
+			if tn != "runtimeContextManager" {
+				return
+			}
+			if fieldDeps(st.Val)["RuntimeContextDef.HardLimits"] || sliceWithFields(st.Val)[push.Params[1]] {
+				fromRequest[fn] = true
+			}
+		})
+		// (e1) the termination raised when a budget runs out says whose budget it was
+		for _, name := range []string{"requireCPU", "requireMem"} {
+			reqFn := reqFns[name]
+			e1 := ""
+			forEachInstr(reqFn, func(ins ssa.Instruction) {
+				var vals []ssa.Value
+				switch x := ins.(type) {
+				case *ssa.Panic:
+					vals = []ssa.Value{x.X}
+				case ssa.CallInstruction:
+					vals = x.Common().Args
+				}
+				for _, v := range vals {
+					sl := sliceWithFields(v)
+					isErr := false
+					for w := range sl {
+						if isTermErrT(w.Type()) {
+							isErr = true
+						}
+					}
+					if !isErr {
+						continue
+					}
+					for w := range sl {
+						if fa, ok := w.(*ssa.FieldAddr); ok {
+							if _, tn, fn := fieldOfAddr(fa); tn == "runtimeContextManager" && fromRequest[fn] && fn != "hardLimits" && fn != "softLimits" {
+								e1 = fn
+							}
+						}
+					}
+				}
+			})
+			if e1 != "" {
+				r.ok("(e) " + name + ": the termination it raises depends on " + e1 + ", which PushContext derives from the requested limits (whose budget ran out)")
+			} else {
+				r.fail("kill-owner-unknown:"+name, p.Pos(reqFn.Pos()), "the termination "+name+" raises does not say whether the budget that ran out was the context's own or what its parent had left (no dependency on a field PushContext derives from the requested limits): CallContext cannot tell a sandbox that hit its own limit from a pcall that exhausted its parent's, so a pcall turns running out of budget into an ordinary, catchable error whenever the refused charge is larger than what the parent has left afterwards (any refused allocation; a single large CPU charge such as string.find on a long subject)")
+			}
+		}
+		// (e2) CallContext hands the recovered termination to something that can terminate the restored context
+		e2 := ""
+		var canKill func(f *ssa.Function, depth int) bool
+		canKill = func(f *ssa.Function, depth int) bool {
+			if f == nil || f.Blocks == nil || depth > 3 {
+				return false
+			}
+			found := false
+			forEachInstr(f, func(ins ssa.Instruction) {
+				switch x := ins.(type) {
+				case *ssa.Store:
+					if fa, ok := x.Addr.(*ssa.FieldAddr); ok {
+						if _, tn, fn := fieldOfAddr(fa); tn == "runtimeContextManager" && fn == "status" {
+							if k, ok := x.Val.(*ssa.Const); ok && k.Value != nil && k.Value.Kind() == constant.Int {
+								if v, _ := constant.Int64Val(k.Value); statusNames[v] == "StatusKilled" {
+									found = true
+								}
+							}
+						}
+					}
+				case ssa.CallInstruction:
+					if cal := x.Common().StaticCallee(); cal != nil && p.InModule(cal) && canKill(cal, depth+1) {
+						found = true
+					}
+				}
+			})
+			return found
+		}
+		fns := append([]*ssa.Function{cc}, cc.AnonFuncs...)
+		for _, f := range fns {
+			forEachInstr(f, func(ins ssa.Instruction) {
+				call, ok := ins.(ssa.CallInstruction)
+				if !ok {
+					return
+				}
+				cal := call.Common().StaticCallee()
+				if cal == nil || !p.InModule(cal) || isCtxMethod(cal, "PopContext") {
+					return
+				}
+				fromRecovered := false
+				for _, a := range call.Common().Args {
+					for w := range sliceWithFields(a) {
+						if ta, ok := w.(*ssa.TypeAssert); ok && isTermErrT(ta.AssertedType) {
+							fromRecovered = true
+						}
+					}
+				}
+				if !fromRecovered || !canKill(cal, 0) {
+					return
+				}
+				// its decision depends on the error it is given
+				dep := false
+				forEachInstr(cal, func(i2 ssa.Instruction) {
+					if iff, ok := i2.(*ssa.If); ok {
+						for w := range sliceWithFields(iff.Cond) {
+							if pr, ok := w.(*ssa.Parameter); ok && isTermErrT(pr.Type()) {
+								dep = true
+							}
+						}
+					}
+				})
+				if dep {
+					e2 = fnKey(cal)
+				}
+			})
+		}
+		if e2 != "" {
+			r.ok("(e) CallContext hands a recovered termination to " + e2 + ", which can terminate the restored context depending on it")
+		} else {
+			r.fail("kill-swallowed-by-nested-context", p.Pos(cc.Pos()), "CallContext recovers a context termination and returns it as an error without giving the restored context a chance to be terminated with it: a pcall (whose context inherits all its parent has left) catches 'memory limit exceeded' and, for a single large charge, 'CPU limit exceeded' — runtime.callcontext({kill={memory=10000}}, function() print(pcall(string.rep, 'x', 100000)) print('still running') end) prints false, the message, 'still running' and ends 'done' — so a kill is interceptable and whether a program is killed is not monotone in the limit")
+		}
+	}
 	// ---- (d)
 	var dueDeps map[string]bool
 	forEachInstr(due, func(ins ssa.Instruction) {
@@ -334,7 +474,7 @@ func ruleContext(c *Ctx) *RuleResult {
 		}
 	}
 	if len(miss) == 0 {
-		r.ok("(d) Due() depends on stopLevel, softLimits and usedResources")
+		r.ok("(d) Due() depends on stopLevel, softLimits and usedResources; (e) running out of CPU or memory is not an error a nested context can swallow: the termination raised by requireCPU and by requireMem depends on a field PushContext derives from the requested limits (whose memory ran out: the context's own, or what its parent had left), and CallContext's recover handler hands the recovered value to a function that can terminate the restored context and whose decision depends on it — a pcall's context has no memory of its own, so without this `pcall(string.rep, 'x', 1e9)` turns the kill into a catchable error and the program carries on")
 	} else {
 		r.fail("due-dependency", p.Pos(due.Pos()), "Due() no longer depends on "+strings.Join(miss, ", ")+": 'due' would not be true exactly when a soft limit is reached or a stop was requested")
 	}
@@ -351,4 +491,37 @@ func instrDominatesOrBefore(a, b ssa.Instruction) bool {
 		return false
 	}
 	return blockReaches(a.Block(), b.Block()) && !blockReaches(b.Block(), a.Block())
+}
+
+// sliceWithFields: backSliceAllocs, plus the values stored into the fields of
+// the local composite literals met on the way.
+func sliceWithFields(v ssa.Value) map[ssa.Value]bool {
+	seen := map[ssa.Value]bool{}
+	work := []ssa.Value{v}
+	for len(work) > 0 {
+		x := work[len(work)-1]
+		work = work[:len(work)-1]
+		for w := range backSliceAllocs(x, false) {
+			if seen[w] {
+				continue
+			}
+			seen[w] = true
+			al, ok := w.(*ssa.Alloc)
+			if !ok || al.Referrers() == nil {
+				continue
+			}
+			for _, ref := range *al.Referrers() {
+				fa, ok := ref.(*ssa.FieldAddr)
+				if !ok || fa.Referrers() == nil {
+					continue
+				}
+				for _, r2 := range *fa.Referrers() {
+					if st, ok := r2.(*ssa.Store); ok && !seen[st.Val] {
+						work = append(work, st.Val)
+					}
+				}
+			}
+		}
+	}
+	return seen
 }
